@@ -36,6 +36,23 @@ def run(check, repo: Repo) -> None:
     mod = repo.module(IU)
     _, fw = repo.func(f"{IU}:_find_wrap")
     _, be = repo.func(f"{IU}:_build_edges")
+    # periodic neighbours are taken per axis.  `(p + 1) % (H·W)` on FLATTENED pixel ids is the horizontal neighbour only inside a row: the last column is joined to the
+    # first pixel of the NEXT row (a diagonal seam edge).  Positively identified flat arithmetic — decided before anything about the layout of the function.
+    def _area(e_, depth=0):
+        if isinstance(e_, ast.BinOp) and isinstance(e_.op, ast.Mult) and all(isinstance(x, (ast.Name, ast.Subscript, ast.Attribute)) for x in (e_.left, e_.right)):
+            return True
+        if isinstance(e_, ast.Call) and (call_name(e_) or "").split(".")[-1] in ("numel", "nelement"):
+            return True
+        if isinstance(e_, ast.Name) and depth < 2:
+            ds_ = [d for d in definitions(be, e_.id) if isinstance(d, ast.AST)]
+            return len(ds_) == 1 and _area(ds_[0], depth + 1)
+        return False
+    for n_ in ast.walk(be):
+        if isinstance(n_, ast.BinOp) and isinstance(n_.op, ast.Mod) and _area(n_.right) and isinstance(n_.left, ast.BinOp) and isinstance(n_.left.op, (ast.Add, ast.Sub)) \
+                and any(isinstance(x, ast.Constant) and x.value == 1 for x in (n_.left.left, n_.left.right)):
+            check.violated("C17-R4", "_build_edges[periodic]: neighbour pairs stay within their row/column",
+                           f"`{unparse(n_)[:60]}`: ±1 on the flattened ids modulo the number of pixels joins (r, W−1) to (r+1, 0) — the left/right seam edges are diagonal, and a "
+                           f"step through the seam is mis-counted when it exceeds π only together with the vertical step", mod.line(n_), definite=True)
     _, uf_init = repo.func(f"{IU}:UnionFindPhase.__init__")
     _, find = repo.func(f"{IU}:UnionFindPhase.find_root_and_offset")
     _, union = repo.func(f"{IU}:UnionFindPhase.union")
@@ -397,3 +414,4 @@ MANIFEST = {
 MANIFEST["text"] += ' Edge end points are evaluated abstractly (id grid, roll along an axis, border slices, flattening): periodic edges are grid↔roll(axis, ±1) pairs, bounded edges are complementary border slices; shifting the flattened ids is reported as a helical seam.'
 MANIFEST["text"] += ' Sibling passes of unwrap_bf_overlap_phase_torch must forward the same caller option dict (**unwrap_kwargs).'
 MANIFEST["text"] += ' Bounded edges written as flat[:-k] / flat[k:] pairs are vertical neighbours iff k is the row LENGTH (resolved through the shape destructuring).'
+MANIFEST["text"] += " ±1 on flattened pixel ids modulo the number of pixels (a diagonal seam edge) is reported before any layout-dependent analysis."
